@@ -309,6 +309,15 @@ func runC04(c *core.Ctx) {
 	c.Rule("R4.6", "a loop collecting the replies of requests pipelined before it runs to its bound (NumChunks): no early exit leaves replies unread on the connection", 2)
 	checkChunkBounds(c, "R4.5")
 	checkReplyCollection(c, "R4.6")
+	c.Rule("R4.7", "key scheme: backend keys are <key>-meta and <key>-<decimal index>; the two suffix languages are disjoint and begin with the last dash of the backend key, so distinct client keys never share a backend entry", 2)
+	checkKeyScheme(c, "R4.7")
+	c.Rule("R4.8", "every counted chunk reply was read without error and token-compared in its iteration, or no hit follows (shared with C05)", 3)
+	c.Rule("R4.9", "once a chunk's token differs from the metadata token no hit is reachable (shared with C05)", 3)
+	c.Share(map[string]string{"R5.4": "R4.8", "R5.2": "R4.9"}, runC05)
+	c.Rule("R4.10", "a value handed to the consumer of a multi-key get lives in memory obtained during that key's iteration: it is not overwritten when the next key is read", 1)
+	checkFreshValueBuffers(c, "R4.10", relChunked)
+	c.Rule("R4.11", "append/prepend store the assembled value under the flags recorded in the metadata they read and under the command's own key", 1)
+	checkRestoreKeepsFlags(c, "R4.11")
 }
 
 func runR43(c *core.Ctx, prods map[*ssa.Function]keyProducer) {
@@ -736,5 +745,254 @@ func checkReplyCollection(c *core.Ctx, rule string) {
 	}
 	if n == 0 {
 		c.Undecided(rule, "chunked#reply-collection-loops", "-", "no reply-collection loop found")
+	}
+}
+
+// checkKeyScheme (R4.7): the backend key of every entry is "<key>-meta" or "<key>-<decimal index>". The metadata
+// constructor appends the constant "-meta"; the chunk constructor produces the dash either explicitly (index 0) or as
+// the sign of the negated index it formats in base 10. The two suffix languages are disjoint ("meta" is no number)
+// and the last '-' splits a backend key uniquely, so distinct client keys never share a backend entry.
+func checkKeyScheme(c *core.Ctx, rule string) {
+	ctors := keyConstructors(c)
+	var meta, chunk *ssa.Function
+	for f := range ctors {
+		if f.Signature.Params().Len() == 1 {
+			meta = f
+		} else if f.Signature.Params().Len() == 2 {
+			chunk = f
+		}
+	}
+	if meta == nil || chunk == nil {
+		c.Undecided(rule, "chunked#key-scheme", "-", "metadata / chunk key constructors not found")
+		return
+	}
+	// metadata suffix: a constant that starts with '-' and contains a non-digit
+	suffix := ""
+	ssax.Instrs(meta, func(ins ssa.Instruction) {
+		if cv, ok := ins.(*ssa.Convert); ok {
+			if s, ok := ssax.ConstString(cv.X); ok {
+				suffix = s
+			}
+		}
+	})
+	word := strings.TrimPrefix(suffix, "-")
+	notNumberIn := func(base int64) bool {
+		for _, r := range word {
+			d := int64(99)
+			switch {
+			case r >= '0' && r <= '9':
+				d = int64(r - '0')
+			case r >= 'a' && r <= 'z':
+				d = int64(r-'a') + 10
+			}
+			if d >= base {
+				return true
+			}
+		}
+		return false
+	}
+	// chunk suffix
+	idx := chunk.Params[1]
+	var bad []string
+	fmtOK, dashOK := false, false
+	idxBase := int64(10)
+	ssax.Instrs(chunk, func(ins ssa.Instruction) {
+		cc := ssax.CallOf(ins)
+		if cc != nil && ssax.CalleeName(cc) == "strconv.AppendInt" {
+			base, _ := ssax.ConstInt(cc.Args[2])
+			neg := false
+			if u, ok := ssax.Unwrap(cc.Args[1]).(*ssa.UnOp); ok && u.Op == token.SUB && ssax.Unwrap(u.X) == ssa.Value(idx) {
+				neg = true
+			}
+			if base >= 2 && base <= 36 && neg {
+				fmtOK = true
+				idxBase = base
+			} else {
+				bad = append(bad, fmt.Sprintf("index formatted in base %d, negated: %v", base, neg))
+			}
+		}
+		// explicit dash for index 0
+		if st, ok := ins.(*ssa.Store); ok {
+			if k, isC := ssax.ConstInt(st.Val); isC && k == '-' {
+				for _, ec := range ssax.DomConds(st.Block()) {
+					if v, ok := condEqConst(ec, func(v ssa.Value) bool { return ssax.Unwrap(v) == ssa.Value(idx) }); ok && v == 0 {
+						dashOK = true
+					}
+				}
+			}
+		}
+	})
+	if !fmtOK {
+		bad = append(bad, "the chunk index is not appended as the rendering of its negation (dash, digits)")
+	}
+	if !dashOK {
+		bad = append(bad, "no explicit dash for chunk index 0 (whose negation has no sign)")
+	}
+	c.Check(len(bad) == 0, rule, "chunked."+chunk.Name()+"#suffix", c.P.Pos(chunk.Pos()), fmt.Sprintf("chunk suffix is '-' followed by the base-%d index for every index >= 0", idxBase), strings.Join(bad, "; "))
+	c.Check(strings.HasPrefix(suffix, "-") && word != "" && notNumberIn(idxBase), rule, "chunked."+meta.Name()+"#suffix", c.P.Pos(meta.Pos()), fmt.Sprintf("metadata suffix %q: a dash followed by a word that is no base-%d number", suffix, idxBase),
+		fmt.Sprintf("the metadata key suffix %q is not a dash followed by a word that is no base-%d number: it can collide with a chunk key of another client key", suffix, idxBase))
+}
+
+// checkFreshValueBuffers: a value handed to the consumer of a multi-key get (sent on the data channel from inside the
+// per-key loop) must be stored in memory obtained during that key's iteration. A buffer that outlives the iteration
+// (allocated before the loop, kept when "large enough", taken from the receiver) is overwritten by the next key while
+// the consumer may still hold the previous response.
+func checkFreshValueBuffers(c *core.Ctx, rule string, rels ...string) {
+	pv := &ssax.Prov{}
+	for _, rel := range rels {
+		for _, fn := range pkgFuncs(c, rel) {
+			loops := ssax.Loops(fn)
+			counts := map[string]int{}
+			ssax.Instrs(fn, func(ins ssa.Instruction) {
+				snd, ok := ins.(*ssa.Send)
+				if !ok || !hasField(snd.X.Type(), "Data") {
+					return
+				}
+				loop := ssax.InnermostLoop(loops, snd.Block())
+				if loop == nil {
+					return
+				}
+				key := ordinalKey(counts, core.FuncName(fn)+"#value-buffer")
+				var bad []string
+				n := 0
+				leaf := func(v ssa.Value, path ...string) {
+					for _, s := range pv.Sources(v, path...) {
+						n++
+						switch s.Kind {
+						case "const", "zero", "recv":
+							continue // a received value is the producer's responsibility
+						}
+						vi, isIns := s.V.(ssa.Instruction)
+						if !isIns || vi.Block() == nil || vi.Parent() != fn || !loop.Blocks[vi.Block()] {
+							bad = append(bad, s.String()+" ("+c.P.Pos(s.V.Pos())+")")
+						}
+					}
+				}
+				seen := map[ssa.Value]bool{}
+				var walk func(v ssa.Value)
+				walk = func(v ssa.Value) {
+					if seen[v] {
+						return
+					}
+					seen[v] = true
+					switch x := v.(type) {
+					case *ssa.Phi:
+						if x.Block() == loop.Header {
+							allNil := true
+							for _, e := range x.Edges {
+								if !ssax.IsNilConst(e) && e != ssa.Value(x) {
+									allNil = false
+								}
+							}
+							if !allNil {
+								n++
+								bad = append(bad, "a buffer carried from one iteration to the next ("+x.Comment+", "+c.P.Pos(x.Pos())+")")
+							}
+							return
+						}
+						for _, e := range x.Edges {
+							walk(e)
+						}
+					case *ssa.Slice:
+						walk(x.X)
+					case *ssa.Convert:
+						walk(x.X)
+					case *ssa.ChangeType:
+						walk(x.X)
+					default:
+						leaf(v)
+					}
+				}
+				vals := fieldStoreVals(snd.X, "Data")
+				if len(vals) == 0 {
+					leaf(snd.X, "Data")
+				}
+				for _, v := range vals {
+					walk(v)
+				}
+				if n == 0 {
+					return
+				}
+				c.Check(len(bad) == 0, rule, key, c.P.Pos(snd.Pos()), "the value sent was obtained inside the iteration that sends it",
+					"the value sent to the consumer lives in memory from outside the key's iteration: "+strings.Join(uniq(bad), ", ")+"; the next key is read into it while the consumer may still hold this response")
+			})
+		}
+	}
+}
+
+// fieldStoreVals: the values stored into field name of a struct value built in a local (composite literal) and loaded.
+func fieldStoreVals(v ssa.Value, name string) []ssa.Value {
+	u, ok := v.(*ssa.UnOp)
+	if !ok || u.Op != token.MUL {
+		return nil
+	}
+	al, ok := u.X.(*ssa.Alloc)
+	if !ok || al.Referrers() == nil {
+		return nil
+	}
+	var out []ssa.Value
+	for _, r := range *al.Referrers() {
+		fa, ok := r.(*ssa.FieldAddr)
+		if !ok || fa.Referrers() == nil {
+			continue
+		}
+		if n, _ := ssax.FieldName(fa); n != name {
+			continue
+		}
+		for _, rr := range *fa.Referrers() {
+			if st, ok := rr.(*ssa.Store); ok && st.Addr == ssa.Value(fa) {
+				out = append(out, st.Val)
+			}
+		}
+	}
+	return out
+}
+
+// checkRestoreKeepsFlags: a command of the chunking backend that reads a value and stores it again (append, prepend)
+// stores it under the flags recorded in the metadata it just read, and under the command's own key: these commands
+// carry no flags of their own (the binary request has no extras), so anything else changes the flags of the item.
+func checkRestoreKeepsFlags(c *core.Ctx, rule string) {
+	pv := &ssax.Prov{}
+	for _, fn := range pkgFuncs(c, relChunked) {
+		fetches := false
+		ssax.Instrs(fn, func(ins ssa.Instruction) {
+			if cc := ssax.CallOf(ins); cc != nil && cc.StaticCallee() != nil && cc.StaticCallee().Pkg == fn.Pkg {
+				res := cc.StaticCallee().Signature.Results()
+				for i := 0; i < res.Len(); i++ {
+					if strings.HasSuffix(types.TypeString(res.At(i).Type(), nil), "chunked.metadata") {
+						fetches = true
+					}
+				}
+			}
+		})
+		if !fetches {
+			continue
+		}
+		counts := map[string]int{}
+		ssax.Instrs(fn, func(ins ssa.Instruction) {
+			cc := ssax.CallOf(ins)
+			if cc == nil || cc.StaticCallee() == nil || cc.StaticCallee().Pkg != fn.Pkg {
+				return
+			}
+			for _, a := range cc.Args {
+				if types.TypeString(a.Type(), nil) != pCommon+".SetRequest" {
+					continue
+				}
+				key := ordinalKey(counts, core.FuncName(fn)+"#re-store:"+cc.StaticCallee().Name())
+				var bad []string
+				for _, s := range pv.Sources(a, "Flags") {
+					if !(s.Kind == "call" && len(s.Path) > 0 && s.Path[len(s.Path)-1] == "OrigFlags") {
+						bad = append(bad, "Flags <- "+s.String())
+					}
+				}
+				for _, s := range pv.Sources(a, "Key") {
+					if !(s.Kind == "param" && s.PathIs("Key")) {
+						bad = append(bad, "Key <- "+s.String())
+					}
+				}
+				c.Check(len(bad) == 0, rule, key, c.P.Pos(ins.Pos()), "re-stored under the metadata's OrigFlags and the command's key",
+					"the value read back is stored again with "+strings.Join(uniq(bad), ", ")+" instead of the flags recorded in the item's metadata / the command's key: an append or prepend changes the item's flags")
+			}
+		})
 	}
 }
